@@ -502,6 +502,66 @@ carquet_status_t carquet_offset_index_serialize(
  */
 
 /**
+ * Compare a query bound with a page bound in the order of the column's physical
+ * type (page min/max are PLAIN-encoded values: little-endian numbers must not be
+ * compared bytewise). For fixed-width types the query value `a` is a full value of
+ * that type (value_len only describes byte arrays), the stored page bound `b` is
+ * checked for its width. Sets *unordered when a floating point NaN is involved.
+ */
+static int compare_index_values(carquet_physical_type_t type,
+                                const void* a, int32_t a_len,
+                                const void* b, int32_t b_len,
+                                bool* unordered) {
+    *unordered = false;
+    switch (type) {
+        case CARQUET_PHYSICAL_BOOLEAN:
+            if (b_len >= 1) {
+                uint8_t va = *(const uint8_t*)a, vb = *(const uint8_t*)b;
+                return (va > vb) - (va < vb);
+            }
+            break;
+        case CARQUET_PHYSICAL_INT32:
+            if (b_len >= 4) {
+                int32_t va, vb;
+                memcpy(&va, a, sizeof(va)); memcpy(&vb, b, sizeof(vb));
+                return (va > vb) - (va < vb);
+            }
+            break;
+        case CARQUET_PHYSICAL_INT64:
+            if (b_len >= 8) {
+                int64_t va, vb;
+                memcpy(&va, a, sizeof(va)); memcpy(&vb, b, sizeof(vb));
+                return (va > vb) - (va < vb);
+            }
+            break;
+        case CARQUET_PHYSICAL_FLOAT:
+            if (b_len >= 4) {
+                float va, vb;
+                memcpy(&va, a, sizeof(va)); memcpy(&vb, b, sizeof(vb));
+                if (va != va || vb != vb) { *unordered = true; return 0; }
+                return (va > vb) - (va < vb);
+            }
+            break;
+        case CARQUET_PHYSICAL_DOUBLE:
+            if (b_len >= 8) {
+                double va, vb;
+                memcpy(&va, a, sizeof(va)); memcpy(&vb, b, sizeof(vb));
+                if (va != va || vb != vb) { *unordered = true; return 0; }
+                return (va > vb) - (va < vb);
+            }
+            break;
+        default:
+            break;
+    }
+
+    /* Byte arrays (and anything of unexpected width): unsigned lexicographic */
+    int32_t min_len = a_len < b_len ? a_len : b_len;
+    int cmp = min_len > 0 ? memcmp(a, b, (size_t)min_len) : 0;
+    if (cmp != 0) return cmp;
+    return (a_len > b_len) - (a_len < b_len);
+}
+
+/**
  * Check if a page might contain values in the given range.
  *
  * @param builder Column index builder
@@ -534,10 +594,11 @@ carquet_status_t carquet_column_index_page_might_match(
 
     /* If query max < page min, no match */
     if (max_value && builder->min_values[page_idx]) {
-        int cmp = memcmp(max_value, builder->min_values[page_idx],
-                         value_len < builder->min_value_lens[page_idx] ?
-                         value_len : builder->min_value_lens[page_idx]);
-        if (cmp < 0 || (cmp == 0 && value_len < builder->min_value_lens[page_idx])) {
+        bool unordered;
+        int cmp = compare_index_values(builder->type, max_value, value_len,
+                                       builder->min_values[page_idx],
+                                       builder->min_value_lens[page_idx], &unordered);
+        if (!unordered && cmp < 0) {
             *might_match = false;
             return CARQUET_OK;
         }
@@ -545,10 +606,11 @@ carquet_status_t carquet_column_index_page_might_match(
 
     /* If query min > page max, no match */
     if (min_value && builder->max_values[page_idx]) {
-        int cmp = memcmp(min_value, builder->max_values[page_idx],
-                         value_len < builder->max_value_lens[page_idx] ?
-                         value_len : builder->max_value_lens[page_idx]);
-        if (cmp > 0 || (cmp == 0 && value_len > builder->max_value_lens[page_idx])) {
+        bool unordered;
+        int cmp = compare_index_values(builder->type, min_value, value_len,
+                                       builder->max_values[page_idx],
+                                       builder->max_value_lens[page_idx], &unordered);
+        if (!unordered && cmp > 0) {
             *might_match = false;
             return CARQUET_OK;
         }
